@@ -30,11 +30,11 @@ import (
 	"go/ast"
 	goparser "go/parser"
 	"go/token"
-	"strconv"
 	"os"
 	"os/exec"
 	"reflect"
 	"sort"
+	"strconv"
 	"strings"
 	"sync"
 	"time"
@@ -45,6 +45,8 @@ import (
 	"github.com/php-any/origami/cmd/compile"
 	"github.com/php-any/origami/data"
 	"github.com/php-any/origami/node"
+	"github.com/php-any/origami/parser"
+	"github.com/php-any/origami/runtime"
 	"github.com/php-any/origami/std"
 	"github.com/php-any/origami/std/net/annotation"
 	"github.com/php-any/origami/std/net/http"
@@ -240,7 +242,13 @@ func (d *dumper) special(rv reflect.Value) (any, bool) {
 		if n.CallExpression == nil {
 			return nil, false
 		}
-		return d.val(reflect.ValueOf(n.CallExpression)), true
+		// a late-bound call = the call expression + the namespace its unqualified name is looked up in.
+		// The namespace is a semantic field (seeded C16-4): it is dumped; the check blanks it only where the
+		// PARSED side is a plain CallExpression, i.e. the callee was resolved while parsing and the
+		// generated NewCallTodo finds it by its full name before the namespace is consulted
+		return d.callExpr(reflect.ValueOf(n.CallExpression), q(unexportedString(rv.Elem(), "namespace"))), true
+	case *node.CallExpression:
+		return d.callExpr(rv, nil), true
 	case *node.CallStaticMethod:
 		return map[string]any{"n": "static-method", "f": []any{[]any{"class", q(staticClassName(n.GetStmt()))}, []any{"method", q(n.Method)}}}, true
 	case *node.CallStaticMethodLater:
@@ -253,6 +261,16 @@ func (d *dumper) special(rv reflect.Value) (any, bool) {
 		return map[string]any{"n": "static-property", "f": []any{[]any{"class", q(unexportedString(e, "className"))}, []any{"property", q(unexportedString(e, "property"))}}}, true
 	}
 	return nil, false
+}
+
+// callExpr dumps a *node.CallExpression with one extra pseudo-field: the namespace of the late-bound form
+func (d *dumper) callExpr(rv reflect.Value, ns any) any {
+	if n := d.seen[rv.Pointer()]; n > 0 {
+		return map[string]any{"bad": "cycle:" + typeName(rv.Type())}
+	}
+	d.seen[rv.Pointer()]++
+	defer func() { d.seen[rv.Pointer()]-- }()
+	return map[string]any{"n": typeName(rv.Type()), "f": append(d.fields(rv.Elem()), []any{"late-namespace", ns})}
 }
 
 func (d *dumper) fields(rv reflect.Value) []any {
@@ -527,6 +545,50 @@ func loadAll(vm data.VM) {
 	websocket.Load(vm)
 	annotation.Load(vm)
 	system.Load(vm)
+}
+
+// loadersMode: which names does each standard-library loader register, and with which Go type?  VM.AddClass /
+// AddFunc keep the FIRST registration of a name, so a name registered by two loaders means the ORDER of the
+// loaders (generated main.go vs the interpreter's zy.go) decides which implementation a program gets.
+func loadersMode() map[string]any {
+	loaders := []struct {
+		name string
+		f    func(data.VM)
+	}{{"std", std.Load}, {"php", php.Load}, {"http", http.Load}, {"websocket", websocket.Load}, {"annotation", annotation.Load}, {"system", system.Load}}
+	type reg struct{ Loader, Type string }
+	classes, funcs := map[string][]reg{}, map[string][]reg{}
+	for _, l := range loaders {
+		func() {
+			defer func() { recover() }()
+			vm := runtime.NewVM(parser.NewParser())
+			l.f(vm)
+			rvm := vm.(*runtime.VM)
+			for _, c := range rvm.AllClasses() {
+				classes[c.GetName()] = append(classes[c.GetName()], reg{l.name, fmt.Sprintf("%T", c)})
+			}
+			for _, fn := range rvm.AllFuncs() {
+				funcs[fn.GetName()] = append(funcs[fn.GetName()], reg{l.name, fmt.Sprintf("%T", fn)})
+			}
+		}()
+	}
+	dup := func(m map[string][]reg) map[string][]reg {
+		out := map[string][]reg{}
+		for n, rs := range m {
+			if len(rs) > 1 {
+				differ := false
+				for _, r := range rs[1:] {
+					if r.Type != rs[0].Type {
+						differ = true
+					}
+				}
+				if differ {
+					out[n] = rs
+				}
+			}
+		}
+		return out
+	}
+	return map[string]any{"classes": dup(classes), "funcs": dup(funcs), "n_classes": len(classes), "n_funcs": len(funcs)}
 }
 
 func progStatements(p data.GetValue) (any, string) {
@@ -882,6 +944,8 @@ func main() {
 			out(e2e(rq.File))
 		case "strlit":
 			out(map[string]any{"strlit": strlitMode(rq.Hex)})
+		case "loaders":
+			out(map[string]any{"loaders": loadersMode()})
 		default:
 			out(map[string]any{"err": "unknown mode"})
 		}
